@@ -6,8 +6,8 @@ Import ListNotations.
 Open Scope Z_scope.
 
 Definition get_items_to_delete (now : Z) (items : list item) (bytes_limit : option Z) (items_limit : option Z) (age_limit : option Z) : result (list item) :=
-  let size := (sum_map (fun item => isize item) items) in
-  if (negb (negb (size =? 0))) then (Ok ([])) else (bind (match bytes_limit with
+  if (negb (negb (is_nil items))) then (Ok ([])) else (let size := (sum_map (fun item => isize item) items) in
+  bind (match bytes_limit with
   | Some bytes_limit => (let to_delete_size := (size - bytes_limit) in
   Ok to_delete_size)
   | None => (let to_delete_size := (0) in
